@@ -143,7 +143,7 @@ def _rich_text():
             alphabet=st.characters(blacklist_categories=("Cs",), blacklist_characters="\r"),
             max_size=10,
         ),
-        st.sampled_from(["", "a", '"', '""', '"""', 'a"', '"a', 'a"b', "a\nb", 'a"\nb', "x = 1", "3", "3.5", "a\n!b\nc", "!a", "a\n \t! b", "a\nxmax = 1.75\nb", "x\nnumber = 2.5\ny", "t\n    xmin = 0.5 \nu\nv"]),
+        st.sampled_from(["", "a", '"', '""', '"""', 'a"', '"a', 'a"b', "a\nb", 'a"\nb', "x = 1", "3", "3.5", "a\n!b\nc", "!a", "a\n \t! b", "a\nxmax = 1.75\nb", "x\nnumber = 2.5\ny", "t\n    xmin = 0.5 \nu\nv", "first line \nsecond", "k =\t\nv = 12", "a  \n \nb"]),
     )
 
 
